@@ -96,6 +96,82 @@ pub struct Res {
     pub static_ss: bool,
     /// the (first) storage keyword is written twice (`static static`, `extern extern`): accepted
     pub dup_kw: bool,
+    /// spelling only (wave 5): how the same declaration can be written without changing what is bound
+    pub sp: Spell,
+}
+
+/// Spellings that must not change a single slot (flags `C T U x<n> F<n> N l L`)
+#[derive(Clone, Copy, Debug, PartialEq, Default)]
+pub struct Spell {
+    /// `C` the keyword `const` is written on the declaration (an extern global is const anyway)
+    pub const_kw: bool,
+    /// `T` the object type is written through `typedef <type> T_<name>;`
+    pub typedefd: bool,
+    /// `U` the array is part of a typedef: `typedef <type> TA_<name>[len]; TA_<name> name;` (one declarator only).
+    /// The type checker looks the register class up on the declaration's BASE type, which is an array here:
+    /// every `register(..)` on such a declarator is rejected (`InvalidRegisterAnnotation`).
+    pub typedef_arr: bool,
+    /// `x<n>` the array length is a constant expression: 0 `[len + 0]`, 1 `[len * 1u]`, 2 a named constant
+    /// `static const uint N_<name> = len;` declared just before
+    pub len_expr: Option<u32>,
+    /// `F<n>` what an `o` entry (a root definition that is never bound) is: 0 struct, 1 enum, 2 function prototype
+    /// followed by its definition, 3 function definition, 4 typedef (no root definition at all)
+    pub other_form: u32,
+    /// `N` (with n) the namespace is nested: `namespace NS { namespace IN { .. } }`
+    pub nested_ns: bool,
+    /// `l` written after the entry point functions, `L` after the Pipeline blocks (2). Every later entry is at least
+    /// as late (request order = source order); such a declaration is not mentioned in any function.
+    pub late: u32,
+}
+
+/// the compile() options next to the target: `<target>[+<B|L|S|D>...]`
+#[derive(Clone, Copy, Debug, PartialEq)]
+pub struct Cfg {
+    pub tgt: Tgt,
+    /// `B` `support_buffer_address(true)` whatever the target is (DirectX / Metal: compile must refuse)
+    pub ba: bool,
+    /// `L` validate_layout_consistency(true), `S` source_info(true), `D` two user defines: none of them may move a slot
+    pub layout: bool,
+    pub srcinfo: bool,
+    pub defines: bool,
+}
+
+impl Cfg {
+    pub fn plain(tgt: Tgt) -> Cfg {
+        Cfg { tgt, ba: false, layout: false, srcinfo: false, defines: false }
+    }
+    /// the parameter set the property speaks of, `None` = buffer addresses requested on a target without them
+    pub fn eff(&self) -> Option<Tgt> {
+        match (self.ba, self.tgt) {
+            (false, t) => Some(t),
+            (true, Tgt::Vk) | (true, Tgt::VkBa) => Some(Tgt::VkBa),
+            (true, _) => None,
+        }
+    }
+    pub fn show(&self) -> String {
+        let mut s = self.tgt.name().to_string();
+        for (on, c) in [(self.ba, 'B'), (self.layout, 'L'), (self.srcinfo, 'S'), (self.defines, 'D')] {
+            if on {
+                s.push('+');
+                s.push(c);
+            }
+        }
+        s
+    }
+    pub fn parse(s: &str) -> Option<Cfg> {
+        let mut it = s.split('+');
+        let mut c = Cfg::plain(Tgt::parse(it.next()?)?);
+        for o in it {
+            match o {
+                "B" => c.ba = true,
+                "L" => c.layout = true,
+                "S" => c.srcinfo = true,
+                "D" => c.defines = true,
+                _ => return None,
+            }
+        }
+        Some(c)
+    }
 }
 
 /// ill-formed attributes: (source text, what the type checker names in its message)
@@ -191,6 +267,15 @@ fn show_res(r: &Res) -> String {
     if is_static && r.static_ss { flags.push("q".into()); }
     if r.unsized_arr { flags.push("z".into()); }
     if r.dim2 { flags.push("m".into()); }
+    if !r.joined {
+        if r.sp.const_kw { flags.push("C".into()); }
+        if r.sp.typedefd { flags.push("T".into()); }
+        if r.sp.typedef_arr { flags.push("U".into()); }
+        if r.sp.nested_ns { flags.push("N".into()); }
+        if r.sp.other_form > 0 { flags.push(format!("F{}", r.sp.other_form)); }
+    }
+    if let Some(n) = r.sp.len_expr { flags.push(format!("x{}", n)); }
+    match r.sp.late { 0 => {} 1 => flags.push("l".into()), _ => flags.push("L".into()) }
     format!("{}={}~{}", r.name, decl_text, flags.join("."))
 }
 
@@ -216,6 +301,7 @@ fn parse_res(s: &str) -> Option<Res> {
         groupshared: false,
         static_ss: false,
         dup_kw: false,
+        sp: Spell::default(),
     };
     let on = |t: &str| -> Option<Option<u32>> { if t == "-" { Some(None) } else { t.parse().ok().map(Some) } };
     for f in flags.split('.').filter(|f| !f.is_empty()) {
@@ -235,6 +321,14 @@ fn parse_res(s: &str) -> Option<Res> {
             "G" => r.groupshared = true,
             "q" => r.static_ss = true,
             "Y" => r.extra.push(Ann::Semantic),
+            "C" => r.sp.const_kw = true,
+            "T" => r.sp.typedefd = true,
+            "U" => r.sp.typedef_arr = true,
+            "N" => r.sp.nested_ns = true,
+            "l" => r.sp.late = 1,
+            "L" => r.sp.late = 2,
+            f if f.starts_with('x') => r.sp.len_expr = Some(f[1..].parse().ok().filter(|n| *n < 3)?),
+            f if f.starts_with('F') => r.sp.other_form = f[1..].parse().ok().filter(|n| *n >= 1 && *n <= 4)?,
             "s" => {
                 decl = match decl {
                     Decl::Global { set, ss: false, kind: Some(kind), len } => Decl::StaticObject { set, kind, len },
@@ -268,6 +362,12 @@ fn base_of(r: &Res) -> Option<(&'static str, bool)> {
     }
 }
 
+impl Res {
+    fn decl_len(&self) -> Option<u32> {
+        entry_len(self)
+    }
+}
+
 /// index of the first declarator of the declaration that entry `i` is written in
 pub fn head_of(res: &[Res], i: usize) -> usize {
     let mut h = i;
@@ -281,6 +381,17 @@ pub fn head_of(res: &[Res], i: usize) -> usize {
 /// type or storage, nothing before it) starts its own declaration; a further declarator has the declaration-level
 /// facts of the first one and spells a group of its own only as a register space.
 pub fn normalise(res: &mut [Res]) {
+    // a typedef'd array type stands for the whole declaration: only on a declaration with one declarator (judged on
+    // the raw `j` flag of the next entry), whose own shape is one sized array layer
+    for i in 0..res.len() {
+        let arr = match &res[i].decl {
+            Decl::Global { kind: Some(_), len: Some(_), ss: false, .. } | Decl::StaticObject { len: Some(_), .. } => true,
+            _ => false,
+        };
+        if res[i].joined || !arr || res[i].unsized_arr || res[i].dim2 || (i + 1 < res.len() && res[i + 1].joined) {
+            res[i].sp.typedef_arr = false;
+        }
+    }
     for i in 0..res.len() {
         if !res[i].joined {
             continue;
@@ -298,8 +409,40 @@ pub fn normalise(res: &mut [Res]) {
         res[i].extern_kw = res[h].extern_kw;
         res[i].groupshared = res[h].groupshared;
         res[i].dup_kw = res[h].dup_kw;
+        res[i].sp.const_kw = res[h].sp.const_kw;
+        res[i].sp.typedefd = res[h].sp.typedefd;
+        res[i].sp.nested_ns = res[h].sp.nested_ns;
+        res[i].sp.typedef_arr = false;
+    }
+    // later and later: request order = source order
+    let mut cur = 0;
+    for i in 0..res.len() {
+        if res[i].joined {
+            res[i].sp.late = res[head_of(res, i)].sp.late;
+        } else {
+            cur = std::cmp::max(cur, res[i].sp.late);
+            res[i].sp.late = cur;
+        }
     }
     for r in res.iter_mut() {
+        if base_of(r).is_none() {
+            r.sp.const_kw = false;
+            r.sp.typedefd = false;
+        }
+        if matches!(&r.decl, Decl::StaticObject { .. }) {
+            // `static const T x;` has no initialiser: the Metal exporter refuses it (UninitializedConstant)
+            r.sp.const_kw = false;
+        }
+        if !matches!(&r.decl, Decl::Other) {
+            r.sp.other_form = 0;
+        }
+        if !r.ns {
+            r.sp.nested_ns = false;
+        }
+        let has_len = matches!(&r.decl, Decl::Global { kind: Some(_), len: Some(_), .. } | Decl::StaticObject { len: Some(_), .. });
+        if !has_len || r.unsized_arr {
+            r.sp.len_expr = None;
+        }
         if !matches!(&r.decl, Decl::StaticObject { .. }) {
             r.groupshared = false;
             r.static_ss = false;
@@ -343,23 +486,23 @@ fn parse_pipe(s: &str) -> Option<Pipe> {
     })
 }
 
-pub fn request(tgt: Tgt, mode: &Mode, p: &Prog) -> String {
+pub fn request(tgt: Cfg, mode: &Mode, p: &Prog) -> String {
     let pipes: Vec<String> = p.pipes.iter().map(show_pipe).collect();
     let res: Vec<String> = p.res.iter().map(show_res).collect();
     format!(
         "C06.compile\t{}\t{}\t{}\t{}",
-        tgt.name(),
+        tgt.show(),
         mode.show(),
         if pipes.is_empty() { "-".to_string() } else { pipes.join(";") },
         res.join(";")
     )
 }
 
-pub fn parse_request(f: &[&str]) -> Option<(Tgt, Mode, Prog)> {
+pub fn parse_request(f: &[&str]) -> Option<(Cfg, Mode, Prog)> {
     if f.len() != 5 || f[0] != "C06.compile" {
         return None;
     }
-    let tgt = Tgt::parse(f[1])?;
+    let tgt = Cfg::parse(f[1])?;
     let mode = if f[2] == "all" {
         Mode::All
     } else if f[2] == "nopipeline" {
@@ -488,12 +631,30 @@ fn anns_text(r: &Res, class: char) -> String {
     s
 }
 
+fn len_text(r: &Res, n: u32) -> String {
+    match r.sp.len_expr {
+        Some(0) => format!("{} + 0", n),
+        Some(1) => format!("{} * 1u", n),
+        Some(_) => format!("N_{}", r.name),
+        None => n.to_string(),
+    }
+}
+
+fn entry_len(r: &Res) -> Option<u32> {
+    match &r.decl {
+        Decl::Global { len, .. } | Decl::StaticObject { len, .. } => *len,
+        _ => None,
+    }
+}
+
 fn declarator(r: &Res, len: Option<u32>) -> String {
     let mut s = r.name.clone();
     if r.unsized_arr {
         s.push_str("[]");
     } else if let Some(n) = len {
-        s.push_str(&format!("[{}]", n));
+        if !r.sp.typedef_arr {
+            s.push_str(&format!("[{}]", len_text(r, n)));
+        }
         if r.dim2 {
             s.push_str("[2]");
         }
@@ -517,13 +678,21 @@ fn init_declarator(r: &Res) -> String {
 
 pub fn source(p: &Prog) -> String {
     let mut s = String::from("struct CbS { float4 v; };\n");
+    let (mut late1, mut late2) = (String::new(), String::new());
     let mut i = 0;
     while i < p.res.len() {
         let r = &p.res[i];
         let mut line = String::new();
         let mut consumed = 1;
         match &r.decl {
-            Decl::Other => line.push_str(&format!("struct {} {{ int x; }};", r.name)),
+            Decl::Other => line.push_str(&match r.sp.other_form {
+                1 => format!("enum {} {{ {}_A }};", r.name, r.name),
+                // (a prototype alone is refused by the exporters: FunctionNotDefined)
+                2 => format!("void {}(int x); void {}(int x) {{}}", r.name, r.name),
+                3 => format!("void {}(int x) {{}}", r.name),
+                4 => format!("typedef int {};", r.name),
+                _ => format!("struct {} {{ int x; }};", r.name),
+            }),
             Decl::CBuffer(_) => {
                 // one to three members: members are not root definitions and take nothing
                 let extra = ["", " float2 pad_a[2];", " float2 pad_a[2]; uint pad_b;"][(r.name.bytes().last().unwrap_or(0) % 3) as usize];
@@ -548,26 +717,56 @@ pub fn source(p: &Prog) -> String {
                 let is_static = matches!(&r.decl, Decl::StaticObject { .. });
                 let first = if !is_static { "" } else if r.groupshared { "groupshared " } else { "static " };
                 let second = if r.extern_kw { "extern " } else { "" };
-                let storage = format!("{}{}{}", if r.dup_kw { if is_static { first } else { second } } else { "" }, first, second);
-                line.push_str(&format!("{}{}{} {}", attrs_text(r), storage, spelling(k), init_declarator(r)));
+                let mut storage = format!("{}{}{}", if r.dup_kw { if is_static { first } else { second } } else { "" }, first, second);
+                if r.sp.const_kw {
+                    storage = if r.name.bytes().last().unwrap_or(0) % 2 == 0 { format!("const {}", storage) } else { format!("{}const ", storage) };
+                }
                 while i + consumed < p.res.len() && p.res[i + consumed].joined {
-                    line.push_str(&format!(", {}", init_declarator(&p.res[i + consumed])));
                     consumed += 1;
+                }
+                // what has to be declared before: named array lengths, the typedefs
+                for d in &p.res[i..i + consumed] {
+                    if let (Some(2), Some(n)) = (d.sp.len_expr, entry_len(d)) {
+                        line.push_str(&format!("static const uint N_{} = {}; ", d.name, n));
+                    }
+                }
+                let mut ty = spelling(k).to_string();
+                if r.sp.typedefd {
+                    line.push_str(&format!("typedef {} T_{}; ", ty, r.name));
+                    ty = format!("T_{}", r.name);
+                }
+                if let (true, Some(n)) = (r.sp.typedef_arr, entry_len(r)) {
+                    line.push_str(&format!("typedef {} TA_{}[{}]; ", ty, r.name, len_text(r, n)));
+                    ty = format!("TA_{}", r.name);
+                }
+                line.push_str(&format!("{}{}{} {}", attrs_text(r), storage, ty, init_declarator(r)));
+                for d in &p.res[i + 1..i + consumed] {
+                    line.push_str(&format!(", {}", init_declarator(d)));
                 }
                 line.push(';');
             }
         }
-        if r.ns {
-            s.push_str(&format!("namespace NS {{ {} }}\n", line));
+        let line = if !r.ns {
+            format!("{}\n", line)
+        } else if r.sp.nested_ns {
+            format!("namespace NS {{ namespace IN {{ {} }} }}\n", line)
         } else {
-            s.push_str(&line);
-            s.push('\n');
+            format!("namespace NS {{ {} }}\n", line)
+        };
+        match r.sp.late {
+            0 => s.push_str(&line),
+            1 => late1.push_str(&line),
+            _ => late2.push_str(&line),
         }
         i += consumed;
     }
     let use_stmt = |idx: usize| -> String {
         let Some(r) = p.res.get(idx) else { return String::new() };
-        let q = if r.ns { "NS::" } else { "" };
+        if r.sp.late > 0 {
+            // declared after the functions
+            return String::new();
+        }
+        let q = if !r.ns { "" } else if r.sp.nested_ns { "NS::IN::" } else { "NS::" };
         match &r.decl {
             Decl::CBuffer(_) => format!("    {}{}_v;\n", q, r.name),
             Decl::Global { kind: Some(_), len, .. } => {
@@ -615,6 +814,7 @@ pub fn source(p: &Prog) -> String {
             ));
         }
     }
+    s.push_str(&late1);
     for (k, pipe) in p.pipes.iter().enumerate() {
         s.push_str(&format!("Pipeline {}\n{{\n", pipe.name));
         let k = owner(k);
@@ -628,6 +828,7 @@ pub fn source(p: &Prog) -> String {
         }
         s.push_str("}\n");
     }
+    s.push_str(&late2);
     s
 }
 
@@ -653,11 +854,16 @@ pub enum Outcome {
     Panic(String),
 }
 
-pub fn compile(src: &str, tgt: Tgt, mode: &Mode) -> Outcome {
+pub fn compile(src: &str, cfg: Cfg, mode: &Mode) -> Outcome {
+    let tgt = cfg.tgt;
+    let defines: &[(&str, &str)] = if cfg.defines { &[("C06_EXTRA", "1"), ("g_unused", "g_other")] } else { &[] };
     let r = guard(|| {
         let mut inc = MemFiles(vec![("main.rssl".to_string(), src.to_string())]);
         let mut args = rssl::CompileArgs::new("main.rssl", &mut inc, tgt.target())
-            .support_buffer_address(tgt.buffer_address());
+            .support_buffer_address(tgt.buffer_address() || cfg.ba)
+            .validate_layout_consistency(cfg.layout)
+            .source_info(cfg.srcinfo)
+            .defines(defines);
         match mode {
             Mode::All => {}
             Mode::Named(n) => args = args.pipeline_name(Some(n.as_str())),
@@ -767,7 +973,9 @@ pub fn show_outcome(o: &Outcome) -> String {
             format!("ok:{}", v.join(" ## "))
         }
         Outcome::Err(e) => {
-            if e == "Shader does not contain a single pipeline" {
+            if e == "InvalidArgs" {
+                "err:invalid-args".into()
+            } else if e == "Shader does not contain a single pipeline" {
                 "err:none".into()
             } else if let Some(n) = e.strip_prefix("Shader does not contain the pipeline: ") {
                 format!("err:unknown:{}", n)
@@ -846,7 +1054,9 @@ pub fn invalid_annotation(res: &[Res]) -> bool {
             _ => false,
         };
         let attr_index = decl_attrs(&res[head_of(res, i)]).iter().any(|a| matches!(a, AttrText::VkBinding(..)));
-        (!r.joined && r.bad_attr.is_some() && !matches!(&r.decl, Decl::Other))
+        // the register class is looked up on the declaration's base type: an array typedef has none
+        (r.sp.typedef_arr && !anns.is_empty())
+            || (!r.joined && r.bad_attr.is_some() && !matches!(&r.decl, Decl::Other))
             || (matches!(&r.decl, Decl::CBuffer(_)) && r.bindless)
             || (matches!(&r.decl, Decl::StaticObject { .. }) && (r.extern_kw || r.static_ss))
             || anns.iter().any(|(a, wrong)| *a == Ann::Semantic || *wrong)
@@ -964,8 +1174,17 @@ fn expected_pipelines(p: &Prog, mode: &Mode) -> Result<Vec<u32>, &'static str> {
     }
 }
 
-fn oracle(p: &Prog, tgt: Tgt, mode: &Mode, o: &Outcome) -> String {
+fn oracle(p: &Prog, cfg: Cfg, mode: &Mode, o: &Outcome) -> String {
     let want = expected_pipelines(p, mode);
+    // buffer addresses exist on the Vulkan flavour only: the property knows four parameter sets, a fifth one
+    // (say DirectX register classes together with inline buffer addresses) must not come into being
+    let refused = matches!(o, Outcome::Err(e) if e == "InvalidArgs");
+    let Some(tgt) = cfg.eff() else {
+        return if refused { "ok".into() } else { "FAIL:buffer addresses requested on a target without them but compile did not refuse the arguments".into() };
+    };
+    if refused {
+        return "FAIL:compile refused arguments that name one of the four parameter sets".into();
+    }
     match o {
         Outcome::Panic(m) => format!("FAIL:panic {}", m),
         Outcome::Err(e) => {
@@ -1024,7 +1243,7 @@ fn oracle(p: &Prog, tgt: Tgt, mode: &Mode, o: &Outcome) -> String {
     }
 }
 
-pub fn run_case(tgt: Tgt, mode: &Mode, p: &Prog, out: &mut Out, hist: &mut Hist) {
+pub fn run_case(tgt: Cfg, mode: &Mode, p: &Prog, out: &mut Out, hist: &mut Hist) {
     let src = source(p);
     let o = compile(&src, tgt, mode);
     let obs = show_outcome(&o);
@@ -1139,6 +1358,7 @@ fn gen_joined(rng: &mut Rng, i: usize, h: &Res) -> Option<Res> {
         groupshared: false,
         static_ss: false,
         dup_kw: false,
+        sp: Spell::default(),
     };
     r.extern_kw = h.extern_kw;
     r.groupshared = h.groupshared;
@@ -1160,7 +1380,28 @@ fn gen_joined(rng: &mut Rng, i: usize, h: &Res) -> Option<Res> {
         }
     }
     gen_extra(rng, &mut r);
+    if r.decl_len().is_some() && rng.chance(1, 4) {
+        r.sp.len_expr = Some(rng.below(3) as u32);
+    }
     Some(r)
+}
+
+/// other ways to write the same thing (normalise keeps only what the declaration can carry)
+fn gen_spell(rng: &mut Rng, r: &mut Res) {
+    r.sp.const_kw = rng.chance(1, 6);
+    r.sp.typedefd = rng.chance(1, 6);
+    // a register annotation on an array typedef is rejected: mostly keep the two apart
+    r.sp.typedef_arr = rng.chance(1, 4) && (own_anns(r).is_empty() || rng.chance(1, 8));
+    if rng.chance(1, 4) {
+        r.sp.len_expr = Some(rng.below(3) as u32);
+    }
+    if rng.chance(1, 2) {
+        r.sp.other_form = rng.below(5) as u32;
+    }
+    r.sp.nested_ns = rng.chance(1, 3);
+    if rng.chance(1, 12) {
+        r.sp.late = 1 + rng.below(2) as u32;
+    }
 }
 
 fn gen_res(rng: &mut Rng, i: usize, sofar: &[Res]) -> Res {
@@ -1184,6 +1425,7 @@ fn gen_res(rng: &mut Rng, i: usize, sofar: &[Res]) -> Res {
         groupshared: false,
         static_ss: false,
         dup_kw: false,
+        sp: Spell::default(),
     };
     // a further declarator of the previous declaration
     if !sofar.is_empty() && rng.chance(1, 4) {
@@ -1279,6 +1521,7 @@ fn gen_res(rng: &mut Rng, i: usize, sofar: &[Res]) -> Res {
         r.bad_attr = Some(rng.below(BAD_ATTRS.len() as u64) as u32);
     }
     gen_extra(rng, &mut r);
+    gen_spell(rng, &mut r);
     r
 }
 
@@ -1354,6 +1597,7 @@ pub fn matrix_progs(rng: &mut Rng) -> Vec<Prog> {
                 groupshared: false,
                 static_ss: false,
                 dup_kw: false,
+                sp: Spell::default(),
             };
             let alen = |rng: &mut Rng| if rng.chance(1, 3) { Some(rng.range(1, 3) as u32) } else { None };
             let mut head = blank("g_a", Decl::Global { set: None, ss: false, kind: Some(kind), len: alen(rng) });
@@ -1399,6 +1643,101 @@ pub fn matrix_progs(rng: &mut Rng) -> Vec<Prog> {
             let pipes = vec![
                 Pipe { name: "P0".into(), dflt: Some(d0), graphics: false, uses: (0..n).collect(), share: None },
                 Pipe { name: "P1".into(), dflt: if d1 == 0 && rng.chance(1, 2) { None } else { Some(d1) }, graphics: rng.chance(1, 3), uses: (0..n).filter(|_| rng.chance(1, 2)).collect(), share: None },
+            ];
+            v.push(Prog { res, pipes });
+        }
+    }
+    v
+}
+
+/// The spelling matrix: kind x way of writing the same declaration (const, typedef, array typedef, the array length as
+/// a constant expression / a named constant, nested namespace, declared after the functions / after the pipelines,
+/// everything together, other kinds of root definitions in between), one plain resource of the same group before and
+/// after it: the slots must be what the plain spelling gives.
+pub fn spelling_progs(rng: &mut Rng, all_kinds: bool) -> Vec<Prog> {
+    let mut v = Vec::new();
+    let blank = |name: &str, decl: Decl| Res {
+        name: name.to_string(),
+        decl,
+        how: How::Attr,
+        lang_index: None,
+        bindless: false,
+        ns: false,
+        unsized_arr: false,
+        dim2: false,
+        joined: false,
+        extra: Vec::new(),
+        pre_group: None,
+        wrong_class: false,
+        bad_attr: None,
+        extern_kw: false,
+        groupshared: false,
+        static_ss: false,
+        dup_kw: false,
+        sp: Spell::default(),
+    };
+    let kinds: Vec<&'static str> = if all_kinds {
+        KINDS.iter().map(|k| k.0).collect()
+    } else {
+        (0..5).map(|_| rng.pick(KINDS).0).collect()
+    };
+    for kind in kinds {
+        for form in 0..11 {
+            let set = *rng.pick(&[None, None, Some(1), Some(2)]);
+            let plain = *rng.pick(&["Texture2D", "RWStructuredBuffer", "ByteAddressBuffer", "SamplerState", "BufferAddress"]);
+            let before = blank("g_p", Decl::Global { set, ss: false, kind: Some(plain), len: if rng.chance(1, 2) { Some(2) } else { None } });
+            let mut after = blank("g_q", Decl::Global { set, ss: false, kind: Some(plain), len: None });
+            let needs_len = matches!(form, 2..=5 | 9);
+            let len = if needs_len || rng.chance(1, 3) { Some(rng.range(1, 3) as u32) } else { None };
+            let mut mid = blank("g_m", Decl::Global { set, ss: false, kind: Some(kind), len });
+            mid.how = *rng.pick(&[How::Attr, How::VkBinding]);
+            if mid.how == How::VkBinding && set.is_some() {
+                mid.lang_index = Some(rng.below(8) as u32);
+            }
+            let mut res = Vec::new();
+            match form {
+                0 => mid.sp.const_kw = true,
+                1 => mid.sp.typedefd = true,
+                2 => mid.sp.typedef_arr = true,
+                3 | 4 | 5 => mid.sp.len_expr = Some(form - 3),
+                6 => {
+                    mid.ns = true;
+                    mid.sp.nested_ns = true;
+                }
+                7 | 8 => {
+                    mid.sp.late = form - 6;
+                    after.sp.late = form - 6;
+                }
+                9 => {
+                    mid.sp = Spell { const_kw: true, typedefd: true, typedef_arr: true, len_expr: Some(2), other_form: 0, nested_ns: true, late: 0 };
+                    mid.ns = true;
+                    mid.extern_kw = true;
+                }
+                _ => {}
+            }
+            res.push(before);
+            if form == 10 {
+                for (n, f) in [("S1", 1), ("S2", 2)] {
+                    let mut o = blank(n, Decl::Other);
+                    o.sp.other_form = f;
+                    res.push(o);
+                }
+            }
+            res.push(mid);
+            if form == 10 {
+                for (n, f) in [("S3", 3), ("S4", 4)] {
+                    let mut o = blank(n, Decl::Other);
+                    o.sp.other_form = f;
+                    res.push(o);
+                }
+            }
+            res.push(after);
+            normalise(&mut res);
+            let n = res.len();
+            let d0 = rng.below(3) as u32;
+            let pipes = vec![
+                Pipe { name: "P0".into(), dflt: Some(d0), graphics: false, uses: (0..n).collect(), share: None },
+                Pipe { name: "P1".into(), dflt: Some((d0 + 1) % 3), graphics: rng.chance(1, 3), uses: (0..n).filter(|_| rng.chance(1, 2)).collect(), share: None },
             ];
             v.push(Prog { res, pipes });
         }
@@ -1461,8 +1800,34 @@ pub fn run_prog(p: &Prog, rng: &mut Rng, out: &mut Out, hist: &mut Hist) {
     if invalid_annotation(&p.res) {
         hist.add("e2e:program-with-an-ill-formed-annotation");
     }
+    for r in &p.res {
+        if r.sp.const_kw && !r.joined { hist.add("e2e:spell:const"); }
+        if r.sp.typedefd && !r.joined { hist.add("e2e:spell:typedef"); }
+        if r.sp.typedef_arr { hist.add("e2e:spell:typedef-array"); }
+        if let Some(n) = r.sp.len_expr { hist.add(&format!("e2e:spell:length-expression-{}", n)); }
+        if r.sp.other_form > 0 { hist.add(&format!("e2e:spell:other-form-{}", r.sp.other_form)); }
+        if r.sp.nested_ns { hist.add("e2e:spell:nested-namespace"); }
+        if r.sp.late > 0 && !r.joined { hist.add(&format!("e2e:spell:declared-late-{}", r.sp.late)); }
+    }
     let unknown = rng.chance(1, 6);
-    for tgt in ALL_TARGETS {
+    for t in ALL_TARGETS {
+        // now and then other compile() options: none of them may move a slot; buffer addresses on every target
+        let mut tgt = Cfg::plain(t);
+        if rng.chance(1, 3) {
+            tgt.ba = rng.chance(1, 3);
+            tgt.layout = rng.chance(1, 3);
+            tgt.srcinfo = rng.chance(1, 3);
+            tgt.defines = rng.chance(1, 3);
+        }
+        hist.add(&format!("e2e:cfg:{}", t.name()));
+        for (on, name) in [(tgt.ba, "buffer-address-forced"), (tgt.layout, "validate-layout"), (tgt.srcinfo, "source-info"), (tgt.defines, "defines")] {
+            if on {
+                hist.add(&format!("e2e:opt:{}", name));
+            }
+        }
+        if tgt.eff().is_none() {
+            hist.add("e2e:cfg:buffer-address-on-a-target-without");
+        }
         run_case(tgt, &Mode::All, p, out, hist);
         for pipe in &p.pipes {
             run_case(tgt, &Mode::Named(pipe.name.clone()), p, out, hist);
